@@ -298,7 +298,7 @@ pub fn check(sizes: &(u64, u64, u64), rec: &mut Rec) -> Result<Value, Fail> {
             }
             // absolute sanity cap for k-way operations: generous, proportional to k
             let k = op.rsplit("_k").next().and_then(|s| s.parse::<u64>().ok()).unwrap_or(1);
-            let cap = k * 4 * 1024 + 8 * 1024;
+            let cap = k * 16 * 1024 + 32 * 1024;
             if pb > cap {
                 return Err(Fail::new("heap-too-large", format!("{}: peak extra heap {} bytes exceeds the generous bound {} for k={} and keys of <= 32 bytes", op, pb, cap, k)));
             }
